@@ -282,5 +282,37 @@ class TypedBound(pg.Object):
     _record(self, 'bound', None)
 
 
-C09_CHANGE_CLASSES = (Notifier, TypedNotifier, ReqNotifier)
+class DeepTyped(pg.Object):
+  """Schema-bound containers nested three deep below an object (the content
+  caches of the levels are computed and reset independently)."""
+  leaf: T.Object(Inner) = Inner()
+  opts: T.Dict([
+      ('lr', T.Float(default=0.1)),
+      ('sub', T.Dict([
+          ('k', T.Int(default=1)),
+          ('l', T.List(T.Int(), default=[])),
+          ('deep', T.Dict([('z', T.Int(default=0)), ('zs', T.List(T.Int(), default=[]))])),
+      ])),
+  ])
+
+  def _on_change(self, field_updates):
+    _record(self, 'change', field_updates)
+    super()._on_change(field_updates)
+
+
+class PlainBase(pg.Object):
+  """A concrete class that does not override `_on_change` ..."""
+  x: T.Any() = None
+  y: T.Any() = None
+
+
+class SubNotifier(PlainBase):
+  """... and a subclass of it that does."""
+
+  def _on_change(self, field_updates):
+    _record(self, 'change', field_updates)
+    super()._on_change(field_updates)
+
+
+C09_CHANGE_CLASSES = (Notifier, TypedNotifier, ReqNotifier, DeepTyped, SubNotifier)
 C09_BOUND_CLASSES = (Bound, TypedBound)
